@@ -653,7 +653,8 @@ class ClimateNetwork(GeoNetwork):
 
         :rtype: 2D matrix [index, index]
         """
-        m = self.correlation_distance()
+        #  work on a copy: the cached correlation distance must stay intact
+        m = self.correlation_distance().copy()
         np.fill_diagonal(m, np.inf)
         self.set_link_attribute('inv_correlation_distance', 1 / m)
         return 1 / m
